@@ -117,7 +117,12 @@ class TxWalker(histglue.Walker):
                 st["@mods"] = "EMPTY"
                 st["@log"] = log + [("clear",)]
                 return Sym("()")
-            raise Unsupported("DashMap::" + m.group(2))
+            # the pending set may or may not be empty: one symbol per function, consistent across reads
+            if st["@mods"] == "EMPTY":
+                return True if m.group(2) == "is_empty" else bv(0)
+            if m.group(2) == "is_empty":
+                return z3.Bool("pending_set_is_empty")
+            return z3.BitVec("pending_set_len", 64)
         m = re.match(r"^<.* as (iter::)?(traits::)?(iterator::)?Iterator>::(map|filter|filter_map|skip|take|rev|step_by|take_while|skip_while)::<", c) or \
             re.match(r"^<.* as (iter::)?(traits::)?(iterator::)?Iterator>::(map|filter|filter_map|skip|take|rev|step_by|take_while|skip_while)$", c)
         if m:
